@@ -2382,7 +2382,7 @@ MSADivide(ESL_MSA *mmsa, ESL_DMATRIX *D, int do_mindiff, int do_nc, int do_nsize
   printf("#   idx    nseq\n");
   printf("#  ----  ------\n");
   for(m = 0; m < nc; m++) {
-    if(esl_vec_ISum(useme[m], mmsa->nseq) == 0) esl_fatal("No sequences in cluster %d\n"); 
+    if(esl_vec_ISum(useme[m], mmsa->nseq) == 0) esl_fatal("No sequences in cluster %d\n", m); 
    if((status = esl_msa_SequenceSubset(mmsa, useme[m], &(cmsa[m]))) != eslOK) ESL_FAIL(status, errbuf, "MSADivide(), esl_msa_SequenceSubset error, status: %d.", status);
     printf("   %4d  %6d\n", m+1, cmsa[m]->nseq);
     free(useme[m]);
